@@ -298,6 +298,8 @@ def parser_units(w, prop, only=None):
             #  an element replacement, the only write to a parsed node that is part of the design)
             foreign = [(type(obj).__name__, what) for obj, what, _ in it.writes if getattr(obj, "of_parsed_node", False) and what != "[]="]
             it.check("frame:nodes-returned-by-sub-parsers-are-not-modified", not foreign, detail=str(foreign[:3]))
+            gw = [x[1] for x in it.effects if x[0] == "global-write"]
+            it.check("frame:no-module-level-state-is-written (the outcome of a parse depends on the text alone)", not gw, detail=str(gw[:3]))
             if o.kind == "raise":
                 if o.exc.fields.get("_from_callee"):
                     it.check("raises:callee-syntax-error-propagates", True)
